@@ -55,6 +55,10 @@ def _init_worker(opts):
         _CTX["pristine"] = PristineServer()
         _CTX["pristine_final"] = True
         _CTX["pristine_rate"] = int(opts.get("pristine_rate", 1))
+    try:
+        import pylab  # noqa: F401  (import only: the rare plot() operations must not pay for it in every child)
+    except Exception:
+        pass
     signal.signal(signal.SIGALRM, _alarm)
     faulthandler.enable()
 
